@@ -576,6 +576,77 @@ let run (cmd : string) (args : string list) : string =
        let mv = move_of_raw (n_of_dec raw) in
        if not (L.mem mv (Rules.legal_moves p)) then "illegal"
        else if spec_loss (freeze (Rules.apply p mv)) (int_of_string maxn) then "keeps" else "not-within-bound")
+  | "specsan", [fen; tok] ->
+    (* the legal move whose admissible spellings contain the token (book movetext); successor FEN *)
+    (match spec_pos fen with
+     | None -> "badfen"
+     | Some p ->
+       let cps = codepoints tok in
+       let ms = L.filter (fun m -> L.mem cps (SanSpec.spellings p m)) (Rules.legal_moves p) in
+       (match ms with
+        | [m] -> spec_move_str m ^ "=" ^ spec_fen (Rules.apply p m)
+        | [] -> "none"
+        | _ -> "ambiguous"))
+  | "specplay", [fen; moves] ->
+    (* play coordinate moves (e2e4, e7e8q) by the rules; the FEN reached or illegal-at-i *)
+    (match spec_pos fen with
+     | None -> "badfen"
+     | Some p0 ->
+       let toks = if moves = "" then [] else String.split_on_char ' ' moves in
+       let rec go p i = function
+         | [] -> spec_fen p
+         | t :: tl ->
+           if String.length t < 4 then Printf.sprintf "illegal-at-%d" i else
+           let sq a b = (Char.code b - 49) * 8 + (Char.code a - 97) in
+           let f = sq t.[0] t.[1] and d = sq t.[2] t.[3] in
+           let pr = if String.length t > 4 then (match t.[4] with 'q' -> Some Types.Queen | 'r' -> Some Types.Rook | 'b' -> Some Types.Bishop | 'n' -> Some Types.Knight | _ -> None) else None in
+           let cands = L.filter (fun m -> int_of_n m.Rules.mv_from = f && int_of_n m.Rules.mv_to = d && m.Rules.mv_promo = pr) (Rules.legal_moves p) in
+           (match cands with
+            | [m] -> go (freeze (Rules.apply p m)) (i + 1) tl
+            | _ -> Printf.sprintf "illegal-at-%d" i) in
+       go (freeze p0) 0 toks)
+  | "ucimodel", [bookfens; lines] ->
+    (* the session state machine of Uci.v run on a command history; in_book is the given set of FENs (placement side rights ep) *)
+    let key f = (match String.split_on_char ' ' f with a :: b :: c :: d :: _ -> String.concat " " [a; b; c; d] | _ -> f) in
+    let books = if bookfens = "-" then [] else L.map key (String.split_on_char '|' bookfens) in
+    let in_book st = L.mem (key (model_fen st)) books in
+    let start = (match model_state "rnbqkbnr/pppppppp/8/8/8/8/PPPPPPPP/RNBQKBNR w KQkq - 0 1" with Some s -> s | None -> failwith "start") in
+    let ls = String.split_on_char '\031' (unescape lines) in
+    let render = function
+      | Uci.OIdName -> "idname" | Uci.OIdAuthor -> "idauthor" | Uci.OUciOk -> "uciok" | Uci.OReadyOk -> "readyok"
+      | Uci.OInfo n -> "info" ^ string_of_int (int_of_n n)
+      | Uci.OBookMove p -> "book:" ^ model_fen p
+      | Uci.OSearchStarted (p, a) -> "start:" ^ model_fen p ^ ":" ^ (if a then "1" else "0")
+      | Uci.OCollected p -> "collected:" ^ model_fen p
+      | Uci.OStateDump p -> "state:" ^ model_fen p
+      | Uci.OStatusDump b -> "status:" ^ (if b then "1" else "0")
+      | Uci.OExit -> "exit" in
+    let sess = ref (Uci.fresh start) in
+    let continue = ref true in
+    let outs = ref [] in
+    L.iter (fun l ->
+      if !continue then begin
+        let ((s', o), c) = Uci.step start in_book !sess (codepoints l) in
+        sess := s'; continue := c;
+        outs := String.concat "~" (L.map render o) :: !outs end) ls;
+    let (_, o) = Uci.collect !sess in
+    outs := String.concat "~" (L.map render o @ ["exit"]) :: !outs;
+    String.concat " || " (L.rev !outs)
+  | "bookgame", [toks] ->
+    (* Book.game_entries on the raw whitespace tokens of one game: the (position, move) pairs the build script records *)
+    let r0 = Rng.of_seed_u64 77L in
+    let hs = Text.hasher_of_stream (L.init 1038 (fun _ -> Rng.next_u64_n r0)) in
+    let start = (match model_state "rnbqkbnr/pppppppp/8/8/8/8/PPPPPPPP/RNBQKBNR w KQkq - 0 1" with Some s -> s | None -> failwith "start") in
+    let tl = L.map codepoints (L.filter (fun t -> t <> "") (String.split_on_char ' ' (unescape toks))) in
+    (match Book.game_entries hs start tl with
+     | None -> "error"
+     | Some es ->
+       let st = ref start in
+       String.concat ";" (L.map (fun (h, m) ->
+         let f = model_fen !st in
+         let ok = (Text.hash hs !st = h) in
+         (match MoveGen.apply_move !st m with Some n -> st := n | None -> ());
+         Printf.sprintf "%s=%d/%d/%d%s" f (int_of_n (MoveEnc.m_origin m)) (int_of_n (MoveEnc.m_dest m)) (opt_piece_int (MoveEnc.m_promotion m)) (if ok then "" else "!HASH")) es))
   | "hashstream", [seed] ->
     let r = Rng.of_seed_u64 (Int64.of_string ("0u" ^ seed)) in
     String.concat "," (L.init 1038 (fun _ -> dec_of_n (Rng.next_u64_n r)))
@@ -592,6 +663,24 @@ let run (cmd : string) (args : string list) : string =
      | Some s, Some h -> dec_of_n (Text.hash h s)
      | None, _ -> "badfen"
      | _, None -> "no-hasher")
+  | "specgame", [seed; plies; fen] ->
+    (* a seeded game through the spec: coordinate moves and the FEN after each *)
+    (match spec_pos fen with
+     | None -> "badfen"
+     | Some p0 ->
+       let st = ref (int_of_string seed * 2654435761 + 1013904223) in
+       let next () = st := (!st * 2862933555777941757 + 3037000493) land max_int; (!st lsr 17) in
+       let coord m =
+         let sq s = let i = int_of_n s in Printf.sprintf "%c%c" (Char.chr (97 + i mod 8)) (Char.chr (49 + i / 8)) in
+         sq m.Rules.mv_from ^ sq m.Rules.mv_to ^ (match m.Rules.mv_promo with Some Types.Queen -> "q" | Some Types.Rook -> "r" | Some Types.Bishop -> "b" | Some Types.Knight -> "n" | _ -> "") in
+       let rec go p n acc =
+         if n = 0 then L.rev acc else
+         let ms = Rules.legal_moves p in
+         if ms = [] then L.rev acc else
+         let m = L.nth ms (next () mod L.length ms) in
+         let p' = freeze (Rules.apply p m) in
+         go p' (n - 1) ((coord m ^ "=" ^ spec_fen p') :: acc) in
+       String.concat ";" (go (freeze p0) (int_of_string plies) []))
   | "legalpos", [fen] ->
     (match spec_pos fen with None -> "badfen" | Some p -> if Rules.legal_pos p then "1" else "0")
   | "rook", [s; occ] -> bb_str (Attacks.rook_attacks (n_of_int (int_of_string s)) (n_of_dec occ))
